@@ -16,9 +16,8 @@
    - strings (date, time) are lists of code points.
 
    [join_gen] is parametrised by the comparison used for ordering the inputs
-   and by the pruning loop, so that the code as it was ([join_orig]: string
-   sort key, list mutated while iterated) and as it is after the proposed fix
-   ([join_fixed]: numeric key, iteration over a copy) are both executable. *)
+   and by the pruning loop; [join_fixed] instantiates it with the code of
+   /repo (numeric key, iteration over a copy; commits bb0c30e, 72ba70a). *)
 From Coq Require Import ZArith List Bool.
 From Verif Require Import Common.ListIdx Common.PyList.
 Import ListNotations.
@@ -58,23 +57,52 @@ Section Split.
   Definition is_nil (l : list A) : bool :=
     match l with [] => true | _ => false end.
 
-  Variable empty_img : A -> bool.   (* np.all(ds["image"][i] == 0) *)
+  (* skip_empty_image_events: what makes the first / the last event "empty"
+     (the two tests differ: the initial one also looks at the contour) *)
+  Variable empty_first : A -> bool.
+  Variable empty_last : A -> bool.
 
   Definition first_empty (l : list A) : bool :=
-    match l with [] => false | x :: _ => empty_img x end.
+    match l with [] => false | x :: _ => empty_first x end.
   Definition last_empty (l : list A) : bool :=
-    match rev l with [] => false | x :: _ => empty_img x end.
+    match rev l with [] => false | x :: _ => empty_last x end.
 
-  (* split(): None = the export of a part without events raises ValueError
-     ("Empty data object for 'basinmap0'") *)
+  (* split(): one file per window; a window whose events are all skipped
+     yields a file without events (since /repo 810f03d the export of an empty
+     selection no longer raises) *)
   Definition split (l : list A) (k : Z) (initial final : bool)
-    : option (list (list A)) :=
-    let parts := split_parts l k (initial && first_empty l)
-                             (final && last_empty l) in
-    if existsb is_nil parts then None else Some parts.
+    : list (list A) :=
+    split_parts l k (initial && first_empty l) (final && last_empty l).
+  Definition has_empty_part (parts : list (list A)) : bool :=
+    existsb is_nil parts.
 End Split.
 
 Definition b2z (b : bool) : Z := if b then 1 else 0.
+
+(* an event as skip_empty_image_events sees it: its position, the pixels of
+   its image (None: the dataset has no "image"), the coordinates of its
+   contour (None: "contour" not in ds; a dataset with a mask always has one,
+   it is computed) *)
+Record sev := mk_sev {
+  se_pos : Z;
+  se_img : option (list Z);
+  se_cnt : option (list Z)
+}.
+
+(* np.all(a == 0): also True for an array without elements *)
+Definition all_zero (l : list Z) : bool := forallb (Z.eqb 0) l.
+
+(* initial: ("contour" in ds and np.all(ds["contour"][0] == 0))
+            or ("image" in ds and np.all(ds["image"][0] == 0))
+   (the tdms "video frame offset" disjunct is not modelled) *)
+Definition sev_first_empty (e : sev) : bool :=
+  (match se_cnt e with Some c => all_zero c | None => false end)
+  || (match se_img e with Some p => all_zero p | None => false end).
+(* final: "image" in ds and np.all(ds["image"][len(ds) - 1] == 0) *)
+Definition sev_last_empty (e : sev) : bool :=
+  match se_img e with Some p => all_zero p | None => false end.
+
+Definition split_events := @split sev sev_first_empty sev_last_empty.
 
 (* ======================================================================= *)
 (* join                                                                      *)
@@ -149,17 +177,55 @@ Definition acq_time8 (m : meas) : Z :=
   8 * (86400 * parse_date (m_date m) + parse_hms (m_time m))
   + frac8 (skipn 8 (m_time m)).
 
+(* ---- which strings time.strptime(date + etime[:8], "%Y-%m-%d%H:%M:%S") and
+   float(etime[8:]) accept.  Strict two-digit fields: the lenient forms
+   strptime also takes ("2024-3-5", "1:02:03", seconds 60/61) and float
+   syntax other than ".digits" are treated as malformed and never generated *)
+Definition is_digit (c : Z) : bool := (48 <=? c) && (c <=? 57).
+Definition leap (y : Z) : bool :=
+  ((y mod 4 =? 0) && negb (y mod 100 =? 0)) || (y mod 400 =? 0).
+Definition days_in_month (y m : Z) : Z :=
+  if m =? 2 then (if leap y then 29 else 28)
+  else if (m =? 4) || (m =? 6) || (m =? 9) || (m =? 11) then 30 else 31.
+
+Definition valid_date (s : list Z) : bool :=
+  match s with
+  | [y1; y2; y3; y4; a; m1; m2; b; d1; d2] =>
+      forallb is_digit [y1; y2; y3; y4; m1; m2; d1; d2]
+      && (a =? 45) && (b =? 45)
+      && (let y := 1000 * dig y1 + 100 * dig y2 + 10 * dig y3 + dig y4 in
+          let m := num2 m1 m2 in
+          let d := num2 d1 d2 in
+          (1 <=? y) && (1 <=? m) && (m <=? 12)
+          && (1 <=? d) && (d <=? days_in_month y m))
+  | _ => false
+  end.
+
+Definition valid_frac (s : list Z) : bool :=
+  match s with
+  | [] => true
+  | c :: ds => (c =? 46) && negb (Nat.eqb (length ds) 0) && forallb is_digit ds
+  end.
+
+Definition valid_time (s : list Z) : bool :=
+  match firstn 8 s with
+  | [h1; h2; a; m1; m2; b; s1; s2] =>
+      forallb is_digit [h1; h2; m1; m2; s1; s2]
+      && (a =? 58) && (b =? 58)
+      && (num2 h1 h2 <? 24) && (num2 m1 m2 <? 60) && (num2 s1 s2 <? 60)
+      && valid_frac (skipn 8 s)
+  | _ => false
+  end.
+
+Definition wf_datetime (m : meas) : bool :=
+  valid_date (m_date m) && valid_time (m_time m).
+
 (* ---- ordering of the inputs ------------------------------------------- *)
 (* fixed code: key = (acquisition time, run index), compared as a tuple *)
 Definition tkey (m : meas) : Z * Z := (acq_time8 m, m_run m).
 Definition tkey_leb (a b : Z * Z) : bool :=
   (fst a <? fst b) || ((fst a =? fst b) && (snd a <=? snd b)).
 Definition leb_num (a b : meas) : bool := tkey_leb (tkey a) (tkey b).
-
-(* original code: key = "_".join([date, time, str(run index)]) *)
-Definition skey (m : meas) : list Z :=
-  m_date m ++ [95] ++ m_time m ++ [95] ++ str_of_Z (m_run m).
-Definition leb_str (a b : meas) : bool := str_leb (skey a) (skey b).
 
 (* ---- features to export ----------------------------------------------- *)
 (* for pp in sorted_paths[1:]: prune `features`; the flag records whether a
@@ -178,7 +244,7 @@ Fixpoint prune_all (prune : (Z -> bool) -> list Z -> list Z)
   end.
 
 (* ---- writing ------------------------------------------------------------ *)
-Inductive jerr := EKey | EOverflow.
+Inductive jerr := EKey | EOverflow | EValue.
 Inductive res (T : Type) :=
 | Ok (x : T)
 | Err (e : jerr).
@@ -279,10 +345,14 @@ Fixpoint tag_from (i : Z) (l : list meas) : list (Z * meas) :=
 Definition join_gen (leb : meas -> meas -> bool)
            (prune : (Z -> bool) -> list Z -> list Z)
            (inputs : list meas) : res joined :=
+  (* len(paths_in) < 2: ValueError; a date/time that strptime/float reject:
+     ValueError (raised while the sort keys are computed, nothing written) *)
+  if (length inputs <? 2)%nat then Err EValue
+  else if negb (forallb wf_datetime inputs) then Err EValue else
   let sorted := py_sorted (fun a b => leb (snd a) (snd b)) (tag_from 0 inputs) in
   let ms := map snd sorted in
   match ms with
-  | [] => Err EKey      (* not reached: join raises ValueError for < 2 inputs *)
+  | [] => Err EValue
   | m0 :: rest =>
       let '(feats, warn) := prune_all prune (py_sorted Z.leb (m_innate m0)) rest in
       (* export.hdf5: features = sorted(set(features)) *)
@@ -304,7 +374,6 @@ Definition join_gen (leb : meas -> meas -> bool)
   end.
 
 Definition join_fixed := join_gen leb_num (py_prune_copy Z.eqb).
-Definition join_orig := join_gen leb_str (py_prune Z.eqb).
 
 (* ---- a measurement split into parts (for join-of-split) ----------------- *)
 Definition part_of (m : meas) (sel : list Z -> list Z) : meas :=
@@ -313,8 +382,9 @@ Definition part_of (m : meas) (sel : list Z -> list Z) : meas :=
      m_cols := map (fun fc => (fst fc, sel (snd fc))) (m_cols m);
      m_logs := m_logs m; m_sample := m_sample m |}.
 
-Definition split_meas (m : meas) (n k : Z) : list meas :=
-  map (fun ii => part_of m (select_from 0 (part_pred n k false false (Z.of_nat ii))))
+(* s0 / s1: the first / last event is skipped (empty boundary image) *)
+Definition split_meas (m : meas) (n k : Z) (s0 s1 : bool) : list meas :=
+  map (fun ii => part_of m (select_from 0 (part_pred n k s0 s1 (Z.of_nat ii))))
       (seq 0 (Z.to_nat (num_files n k))).
 
 (* ======================================================================= *)
@@ -336,6 +406,13 @@ Definition spec_plain (f : Z) (ms : list meas) : list Z :=
   concat (map (getcol f) ms).
 Definition spec_index (f : Z) (ms : list meas) : list Z :=
   map (fun i => 1 + Z.of_nat i) (seq 0 (length (spec_plain f ms))).
+(* index_online: every later block is shifted by (last value so far) + 1 *)
+Definition ido_append (acc p : list Z) : list Z :=
+  acc ++ map (Z.add (match acc with [] => 0 | _ => last acc 0 + 1 end)) p.
+Definition spec_ido_blocks (blocks : list (list Z)) : list Z :=
+  fold_left ido_append blocks [].
+Definition spec_ido (f : Z) (ms : list meas) : list Z :=
+  spec_ido_blocks (map (getcol f) ms).
 
 (* the inputs, tagged with their position in paths_in, in the order join
    processes them *)
@@ -353,12 +430,14 @@ Definition spec_features (m0 : meas) (rest : list meas) : list Z :=
          (py_sorted Z.leb (m_innate m0)).
 
 (* well-formed input: every available feature has a column, innate features
-   are available and distinct, the frame rate is not negative *)
+   are available and distinct, the frame rate is not negative, date and time
+   are strings strptime/float accept *)
 Definition wf_meas (m : meas) : Prop :=
   NoDup (m_innate m)
   /\ (forall f, In f (m_innate m) -> In f (m_avail m))
   /\ (forall f, In f (m_avail m) -> lookup_col f (m_cols m) <> None)
-  /\ 0 <= m_rate m.
+  /\ 0 <= m_rate m
+  /\ wf_datetime m = true.
 
 (* ======================================================================= *)
 (* interface used by the correspondence check (harness/c09.py)               *)
@@ -377,6 +456,7 @@ Definition enc_join (r : res joined) : list Z :=
   match r with
   | Err EKey => [1]
   | Err EOverflow => [2]
+  | Err EValue => [3]
   | Ok j =>
       [0; Z.of_nat (length (j_order j))] ++ j_order j
       ++ [Z.of_nat (length (j_feats j))] ++ j_feats j
@@ -390,27 +470,30 @@ Definition enc_join (r : res joined) : list Z :=
 
 Definition join_flat (ms : list raw_meas) : list Z :=
   enc_join (join_fixed (map decode_meas ms)).
-Definition join_flat_orig (ms : list raw_meas) : list Z :=
-  enc_join (join_orig (map decode_meas ms)).
 
-(* events = (position, image is empty); case = (events, k, initial, final) *)
-Definition split_flat (c : list (Z * bool) * Z * bool * bool) : list Z :=
+(* events = (position, (has image, pixels), (has contour, coordinates));
+   case = (events, k, initial, final) *)
+Definition decode_sev (t : Z * (bool * list Z) * (bool * list Z)) : sev :=
+  let '(p, (hi, px), (hc, cs)) := t in
+  mk_sev p (if hi then Some px else None) (if hc then Some cs else None).
+
+Definition split_flat
+           (c : list (Z * (bool * list Z) * (bool * list Z)) * Z * bool * bool)
+  : list Z :=
   let '(evs, k, initial, final) := c in
-  match split snd evs k initial final with
-  | None => [1]
-  | Some parts =>
-      (* per part: events, then the sample-name suffix "i/num_files" *)
-      [0; Z.of_nat (length parts)]
-      ++ flat_map (fun ip => (Z.of_nat (length (snd ip)) :: map fst (snd ip))
-                             ++ [fst ip; Z.of_nat (length parts)])
-                  (combine (map (fun i => Z.of_nat i + 1) (seq 0 (length parts)))
-                           parts)
-  end.
+  let parts := split_events (map decode_sev evs) k initial final in
+  (* per part: events, then the sample-name suffix "i/num_files" *)
+  [0; Z.of_nat (length parts)]
+  ++ flat_map (fun ip => (Z.of_nat (length (snd ip)) :: map se_pos (snd ip))
+                         ++ [fst ip; Z.of_nat (length parts)])
+              (combine (map (fun i => Z.of_nat i + 1) (seq 0 (length parts)))
+                       parts).
 
-(* join of the parts of a split: (measurement, n, k) *)
-Definition join_split_flat (c : raw_meas * Z * Z) : list Z :=
-  let '(m, n, k) := c in
-  enc_join (join_fixed (split_meas (decode_meas m) n k)).
+(* join of the parts of a split: (measurement, n, k, first skipped, last
+   skipped) *)
+Definition join_split_flat (c : raw_meas * Z * Z * bool * bool) : list Z :=
+  let '(m, n, k, s0, s1) := c in
+  enc_join (join_fixed (split_meas (decode_meas m) n k s0 s1)).
 
 (* Python semantics of Common/PyList.v against the interpreter itself:
    (tag, l1, l2) *)
@@ -426,4 +509,33 @@ Definition pysem_flat (c : Z * list Z * list Z) : list Z :=
     match l1 with [num; den] => [round_half_even num den] | _ => [] end
   else if tag =? 5 then
     match l1 with [n] => str_of_Z n | _ => [] end
-  else [acq_time8 (mk_meas l1 l2 0 0 [] [] [] [])].
+  else if tag =? 6 then
+    (* get_acquisition_time: [0; eighths] or [1] for ValueError *)
+    let m := mk_meas l1 l2 0 0 [] [] [] [] in
+    if wf_datetime m then [0; acq_time8 m] else [1]
+  else sort_dedup l1.
+
+(* ======================================================================= *)
+(* trace channels                                                            *)
+(* ======================================================================= *)
+(* hw.store_feature("trace", dsi["trace"]) writes, for every channel the
+   input has, to the output dataset of that channel (created when absent):
+   the number of rows per channel after joining inputs = (events, channels) *)
+Fixpoint tl_add (k n : Z) (st : list (Z * Z)) : list (Z * Z) :=
+  match st with
+  | [] => [(k, n)]
+  | (k', v) :: r => if k =? k' then (k', v + n) :: r else (k', v) :: tl_add k n r
+  end.
+Definition tl_input (st : list (Z * Z)) (inp : Z * list Z) : list (Z * Z) :=
+  fold_left (fun s k => tl_add k (fst inp) s) (snd inp) st.
+Definition trace_lengths (inputs : list (Z * list Z)) : list (Z * Z) :=
+  fold_left tl_input inputs [].
+Definition tl_total (inputs : list (Z * list Z)) : Z :=
+  fold_right Z.add 0 (map fst inputs).
+(* every channel holds every event *)
+Definition tl_consistent (inputs : list (Z * list Z)) : bool :=
+  forallb (fun kv => snd kv =? tl_total inputs) (trace_lengths inputs).
+
+Definition trace_len_flat (inputs : list (Z * list Z)) : list Z :=
+  flat_map (fun kv => [fst kv; snd kv])
+           (py_sorted (fun a b : Z * Z => fst a <=? fst b) (trace_lengths inputs)).
